@@ -254,8 +254,11 @@ def obligations_fp(net, p, names, job):
                 vd = _t(res.at[ix, "vdot_m3_per_s"])
                 poly = _pump_poly(net, t.at[ix, "std_type"], vd)
                 goal = z3.If(vd >= 0, _t(dp) == z3.If(poly >= 0, poly, 0), _t(dp) == 0)
+                # sequential mode: the hydraulic stage evaluates the curve with the start temperatures, the reported
+                # volume flow uses the solved ones (own fingerprint: known finding F37)
                 obs.append({"label": "pump %s: deltap = max(0, curve(reported vdot)), 0 for reverse flow" % ix,
-                            "fp": "C03/pump_curve", "goal": goal, "replay": {"kind": "pump", "index": int(ix)},
+                            "fp": "C03/pump_curve" + ("/sequential" if job.get("pfmode") == "sequential" else ""),
+                            "goal": goal, "replay": {"kind": "pump", "index": int(ix)},
                             "timeout_ms": 20000, "hyps_min": base_hyps(p) if p is not None else None})
             else:
                 m = _t(res.at[ix, "mdot_from_kg_per_s"])
@@ -289,14 +292,28 @@ def jobs(tier, seed):
             if has_nl:
                 out.append({"name": "%s/fixpoint/%s" % (s["name"], "numba" if numba else "numpy"), "spec": s,
                             "numba": numba, "kind": "fp"})
+    # the same set-points in the thermal modes (temperatures solved, not the start values)
+    byname = {s["name"]: s for s in specs}
+    thermal = [("pump_w", "sequential", "fp"), ("pump_w", "bidirectional", "fp"), ("fc_pc", "sequential", "step"),
+               ("circ_p", "bidirectional", "step"), ("circ_two", "sequential", "step")]
+    if tier != "quick":
+        thermal += [("pump_standby", "bidirectional", "fp"), ("pump_w_high", "sequential", "fp"),
+                    ("eg_multi", "sequential", "step"), ("circ_m", "bidirectional", "step"),
+                    ("pc_standby", "bidirectional", "step"), ("circ_p", "sequential", "step")]
+    for nm, mode, kind in thermal:
+        for numba in ((False,) if tier == "quick" else (False, True)):
+            out.append({"name": "%s/%s/%s/%s" % (nm, "step" if kind == "step" else "fixpoint", mode,
+                                                 "numba" if numba else "numpy"),
+                        "spec": byname[nm], "numba": numba, "kind": kind, "pfmode": mode})
     return out
 
 
 def worker(job):
+    mode = job.get("pfmode") or "hydraulics"
     if job["kind"] == "step":
-        return pipeflow_worker(job, dict(mode="hydraulics"), obligations_step, witnesses_fn=witnesses,
+        return pipeflow_worker(job, dict(mode=mode), obligations_step, witnesses_fn=witnesses,
                                build_kwargs={"skip": SKIP_H})
-    return pipeflow_worker(job, dict(mode="hydraulics"), obligations_fp, fixed_point=True, witnesses_fn=witnesses,
+    return pipeflow_worker(job, dict(mode=mode), obligations_fp, fixed_point=True, witnesses_fn=witnesses,
                            build_kwargs={"skip": SKIP_H}, validate=0)
 
 
@@ -312,15 +329,17 @@ def replay(rs):
         if not values and worst > 1e-6:
             break
         net, _ = nets.build(spec, nets.concrete_valuer(values), skip=SKIP_H)
-        ok, err = concrete_pipeflow(net, use_numba=numba, mode="hydraulics", tol_p=1e-9, tol_m=1e-9, tol_res=1e-9,
-                                    max_iter_hyd=200)
+        mode = (rs.get("pipeflow_kwargs") or {}).get("mode") or "hydraulics"
+        ok, err = concrete_pipeflow(net, use_numba=numba, mode=mode, tol_p=1e-9, tol_m=1e-9, tol_res=1e-9,
+                                    max_iter_hyd=200, **({} if mode == "hydraulics" else
+                                                         dict(tol_T=1e-9, max_iter_therm=200, max_iter_bidirect=200)))
         numba = key
         if not ok:
             out[key] = "pipeflow failed: %s" % err
             continue
         devs = []
         for fn_ in (obligations_step, obligations_fp):
-            for ob in fn_(net, None, {}, {}):
+            for ob in fn_(net, None, {}, {"pfmode": mode}):
                 if ob["label"] != rs.get("label"):
                     continue
                 g = z3.simplify(ob["goal"])
